@@ -39,8 +39,15 @@ Definition thr_ok (h : list (nat * nat)) (i : nat) (t : pthread) : Prop :=
   disciplined (map fst (slots t)) (now t) = true /\
   Forall (fun c => disciplined [] c = true) (todo t).
 
-Definition PInv (p : pool) : Prop :=
+(* objects travelling through the queue: each once, still registered with a holder (so the pool cannot hand them
+   out), and bound in NO thread's slot (nobody can touch them) *)
+Definition TR (p : pool) : Prop :=
+  NoDup (transit p) /\
+  forall o, In o (transit p) -> alookup o (holder p) <> None /\
+    forall i t sl, nth_error (pth p) i = Some t -> alookup sl (slots t) <> Some o.
+Definition PInv12 (p : pool) : Prop :=
   perr p = false /\ forall i t, nth_error (pth p) i = Some t -> thr_ok (holder p) i t.
+Definition PInv (p : pool) : Prop := PInv12 p /\ TR p.
 
 Definition poolstep (p p' : pool) : Prop := exists i pick, pool_step i pick p = Some p'.
 Inductive preach (p0 : pool) : pool -> Prop :=
@@ -50,7 +57,7 @@ Inductive preach (p0 : pool) : pool -> Prop :=
 Lemma PInv_upd h h' th i t' :
   (forall j t, nth_error th j = Some t -> thr_ok h j t) ->
   thr_ok h' i t' ->
-  (forall j t, j <> i -> thr_ok h j t -> thr_ok h' j t) ->
+  (forall j t, j <> i -> nth_error th j = Some t -> thr_ok h j t -> thr_ok h' j t) ->
   forall j t, nth_error (upd th i t') j = Some t -> thr_ok h' j t.
 Proof.
   intros HA Hi Hf j t Hj. destruct (Nat.eq_dec j i) as [->|Hne].
@@ -62,9 +69,9 @@ Qed.
 
 Lemma thr_ok_frame_same h j t : thr_ok h j t -> thr_ok h j t. Proof. auto. Qed.
 
-Lemma pool_step_inv p p' : PInv p -> poolstep p p' -> PInv p'.
+Lemma pool_step_inv12 p p' : PInv p -> poolstep p p' -> PInv12 p'.
 Proof.
-  intros [He HA] [i [pick E]]. unfold pool_step in E.
+  intros [[He HA] [HTn HT]] [i [pick E]]. unfold pool_step in E.
   destruct (nth_error (pth p) i) as [t|] eqn:Hn; [|discriminate].
   pose proof (HA i t Hn) as (Ha & Hb & Hd & Ht).
   destruct (now t) as [|e k] eqn:Hnow.
@@ -72,7 +79,7 @@ Proof.
     destruct (todo t) as [|c r] eqn:Htodo; [discriminate|]. inversion E; subst p'; clear E. split; [exact He|]. cbn [holder pth].
     apply PInv_upd with (h := holder p); auto.
     inversion Ht; subst. repeat split; cbn; auto; try discriminate.
-  - destruct e as [sl|sl|a b|sl|sl]; cbn [disciplined] in Hd.
+  - destruct e as [sl|sl|a b|sl|sl|sl|sl|sl]; cbn [disciplined] in Hd.
     + (* Get *)
       apply andb_true_iff in Hd. destruct Hd as [Hd1 Hd2]. apply negb_true_iff in Hd1.
       destruct (Nat.leb pick (nobj p) && match alookup pick (holder p) with None => true | Some _ => false end) eqn:G; [|discriminate].
@@ -93,7 +100,7 @@ Proof.
            ++ inversion H1; subst. exfalso. eapply (Hfresh i t s2 o); eauto.
            ++ inversion H2; subst. exfalso. eapply (Hfresh i t s1 o); eauto.
            ++ eapply Hb; eauto.
-      * intros j tj Hne (Haj & Hbj & Hdj & Htj). repeat split; auto.
+      * intros j tj Hne Hmem (Haj & Hbj & Hdj & Htj). repeat split; auto.
         intros sl' o Hl. cbn. pose proof (Haj _ _ Hl) as Ho.
         destruct (Nat.eqb pick o) eqn:E2; [apply Nat.eqb_eq in E2; subst; congruence|exact Ho].
     + (* Use *)
@@ -123,15 +130,145 @@ Proof.
               destruct (Nat.eq_dec s2 sl) as [->|N2]; [rewrite alookup_aremove_eq in H2; discriminate|].
               rewrite alookup_aremove_ne in H1, H2 by auto. eapply Hb; eauto.
            ++ rewrite map_fst_aremove. exact Hd2.
-        -- intros j tj Hne (Haj & Hbj & Hdj & Htj). repeat split; auto.
+        -- intros j tj Hne Hmem (Haj & Hbj & Hdj & Htj). repeat split; auto.
            intros sl' o' Hl. pose proof (Haj _ _ Hl) as Ho'.
            rewrite alookup_aremove_ne; auto. intros ->. rewrite (Ha _ _ Ho) in Ho'. congruence.
     + (* ReturnAlias *) discriminate.
+    + (* Send: the slot is cleared, the holder table is unchanged *)
+      apply andb_true_iff in Hd. destruct Hd as [Hd1 Hd2].
+      destruct (lmem_alookup _ _ Hd1) as [o Ho]. rewrite Ho in E.
+      inversion E; subst p'; clear E. split.
+      * cbn [perr]. rewrite He. unfold may_touch. rewrite Ho, (Ha _ _ Ho), Nat.eqb_refl. reflexivity.
+      * cbn [holder pth]. apply PInv_upd with (h := holder p); auto.
+        repeat split; cbn [slots now todo]; auto.
+        -- intros sl' o' Hl. destruct (Nat.eq_dec sl' sl) as [->|Hne]; [rewrite alookup_aremove_eq in Hl; discriminate|].
+           rewrite alookup_aremove_ne in Hl by auto. eapply Ha; eauto.
+        -- intros s1 s2 o' H1 H2.
+           destruct (Nat.eq_dec s1 sl) as [->|N1]; [rewrite alookup_aremove_eq in H1; discriminate|].
+           destruct (Nat.eq_dec s2 sl) as [->|N2]; [rewrite alookup_aremove_eq in H2; discriminate|].
+           rewrite alookup_aremove_ne in H1, H2 by auto. eapply Hb; eauto.
+        -- rewrite map_fst_aremove. exact Hd2.
+    + (* Recv: the oldest object in transit becomes this thread's *)
+      apply andb_true_iff in Hd. destruct Hd as [Hd1 Hd2]. apply negb_true_iff in Hd1.
+      destruct (transit p) as [|o r] eqn:Htr; [discriminate|].
+      inversion E; subst p'; clear E. split; [exact He|]. cbn [holder pth].
+      rewrite (aremove_notin sl (slots t) Hd1).
+      assert (Hfree : forall j tj sl' o', nth_error (pth p) j = Some tj -> alookup sl' (slots tj) = Some o' -> o' <> o).
+      { intros j tj sl' o' Hj Hl ->. destruct (HT o) as [_ Hno]; [try rewrite Htr; cbn; auto|]. eapply Hno; eauto. }
+      apply PInv_upd with (h := holder p); auto.
+      * repeat split; cbn [slots now todo]; auto.
+        -- intros sl' o' Hl. cbn in Hl. destruct (Nat.eqb sl sl') eqn:E1.
+           ++ inversion Hl; subst. cbn. rewrite Nat.eqb_refl. reflexivity.
+           ++ cbn. pose proof (Hfree i t sl' o' Hn Hl) as Hne.
+              destruct (Nat.eqb o o') eqn:E2; [apply Nat.eqb_eq in E2; congruence|].
+              rewrite alookup_aremove_ne by auto. eapply Ha; eauto.
+        -- intros s1 s2 o' H1 H2. cbn in H1, H2.
+           destruct (Nat.eqb sl s1) eqn:E1; destruct (Nat.eqb sl s2) eqn:E2.
+           ++ apply Nat.eqb_eq in E1, E2. congruence.
+           ++ inversion H1; subst. exfalso. eapply (Hfree i t s2 o'); eauto.
+           ++ inversion H2; subst. exfalso. eapply (Hfree i t s1 o'); eauto.
+           ++ eapply Hb; eauto.
+      * intros j tj Hne Hmem (Haj & Hbj & Hdj & Htj). repeat split; auto.
+        intros sl' o' Hl. cbn. pose proof (Haj _ _ Hl) as Ho'. pose proof (Hfree j tj sl' o' Hmem Hl) as Hneo.
+        destruct (Nat.eqb o o') eqn:E2; [apply Nat.eqb_eq in E2; congruence|].
+        rewrite alookup_aremove_ne by auto. exact Ho'.
+    + (* Drop *)
+      apply andb_true_iff in Hd. destruct Hd as [Hd1 Hd2].
+      destruct (lmem_alookup _ _ Hd1) as [o Ho]. rewrite Ho in E.
+      inversion E; subst p'; clear E. split.
+      * cbn [perr]. rewrite He. unfold may_touch. rewrite Ho, (Ha _ _ Ho), Nat.eqb_refl. reflexivity.
+      * cbn [holder pth]. apply PInv_upd with (h := holder p); auto.
+        repeat split; cbn [slots now todo]; auto.
+        -- intros sl' o' Hl. destruct (Nat.eq_dec sl' sl) as [->|Hne]; [rewrite alookup_aremove_eq in Hl; discriminate|].
+           rewrite alookup_aremove_ne in Hl by auto. eapply Ha; eauto.
+        -- intros s1 s2 o' H1 H2.
+           destruct (Nat.eq_dec s1 sl) as [->|N1]; [rewrite alookup_aremove_eq in H1; discriminate|].
+           destruct (Nat.eq_dec s2 sl) as [->|N2]; [rewrite alookup_aremove_eq in H2; discriminate|].
+           rewrite alookup_aremove_ne in H1, H2 by auto. eapply Hb; eauto.
+        -- rewrite map_fst_aremove. exact Hd2.
 Qed.
+
+Lemma TR_upd h' n' e' tr' th i T' :
+  NoDup tr' ->
+  (forall o, In o tr' -> alookup o h' <> None) ->
+  (forall o, In o tr' -> forall sl, alookup sl (slots T') <> Some o) ->
+  (forall o, In o tr' -> forall j t sl, j <> i -> nth_error th j = Some t -> alookup sl (slots t) <> Some o) ->
+  TR (mkPool h' n' (upd th i T') e' tr').
+Proof.
+  intros H1 H2 H3 H4. split; cbn [transit holder pth]; auto. intros o Ho. split; auto.
+  intros j t sl Hj. destruct (Nat.eq_dec j i) as [->|Hne].
+  - assert (Hl : i < length th) by (rewrite <- (upd_length th i T'); eapply nth_some_lt; eauto).
+    destruct (nth_error th i) as [t0|] eqn:E; [|apply nth_error_None in E; lia].
+    rewrite (nth_upd_eq th i T' t0 E) in Hj. inversion Hj; subst. auto.
+  - rewrite nth_upd_ne in Hj by auto. eapply H4; eauto.
+Qed.
+Lemma alookup_aremove_some k k' l v : alookup k (aremove k' l) = Some v -> alookup k l = Some v.
+Proof.
+  destruct (Nat.eq_dec k k') as [->|Hne]; [rewrite alookup_aremove_eq; discriminate|]. rewrite alookup_aremove_ne; auto.
+Qed.
+
+Lemma pool_step_TR p p' : PInv p -> poolstep p p' -> TR p'.
+Proof.
+  intros [[He HA] [HTn HT]] [i [pick E]]. unfold pool_step in E.
+  destruct (nth_error (pth p) i) as [t|] eqn:Hn; [|discriminate].
+  pose proof (HA i t Hn) as (Ha & Hb & Hd & Ht).
+  assert (Hold : forall o, In o (transit p) -> forall j t0 sl, j <> i -> nth_error (pth p) j = Some t0 -> alookup sl (slots t0) <> Some o).
+  { intros o Ho j t0 sl _ Hj. destruct (HT o Ho) as [_ H]. eapply H; eauto. }
+  assert (Hme : forall o, In o (transit p) -> forall sl, alookup sl (slots t) <> Some o).
+  { intros o Ho sl. destruct (HT o Ho) as [_ H]. eapply H; eauto. }
+  assert (Hh : forall o, In o (transit p) -> alookup o (holder p) <> None) by (intros o Ho; apply (HT o Ho)).
+  destruct (now t) as [|e k] eqn:Hnow.
+  - destruct (todo t) as [|c r]; [discriminate|]. inversion E; subst p'; clear E.
+    apply TR_upd; auto. intros o Ho sl. cbn. discriminate.
+  - destruct e as [sl|sl|a b|sl|sl|sl|sl|sl].
+    + (* Get *)
+      destruct (Nat.leb pick (nobj p) && match alookup pick (holder p) with None => true | Some _ => false end) eqn:G; [|discriminate].
+      apply andb_true_iff in G. destruct G as [_ G]. destruct (alookup pick (holder p)) eqn:Hp; [discriminate|].
+      inversion E; subst p'; clear E. apply TR_upd; auto.
+      * intros o Ho. cbn. destruct (Nat.eqb pick o); [discriminate|auto].
+      * intros o Ho sl' Hl. cbn in Hl. destruct (Nat.eqb sl sl').
+        -- inversion Hl; subst. apply (Hh o Ho). exact Hp.
+        -- apply alookup_aremove_some in Hl. eapply Hme; eauto.
+    + inversion E; subst p'; clear E. apply TR_upd; auto.
+    + inversion E; subst p'; clear E. apply TR_upd; auto.
+    + (* Put *)
+      destruct (alookup sl (slots t)) as [o|] eqn:Ho; inversion E; subst p'; clear E; apply TR_upd; auto.
+      * intros o' Ho'. rewrite alookup_aremove_ne; auto. intros ->. eapply Hme; eauto.
+      * intros o' Ho' sl' Hl. cbn in Hl. apply alookup_aremove_some in Hl. eapply Hme; eauto.
+    + inversion E; subst p'; clear E. apply TR_upd; auto.
+    + (* Send *)
+      destruct (alookup sl (slots t)) as [o|] eqn:Ho; inversion E; subst p'; clear E; apply TR_upd; auto.
+      * apply NoDup_rev in HTn. rewrite <- (rev_involutive (transit p ++ [o])). apply NoDup_rev.
+        rewrite rev_app_distr. cbn. constructor; auto. rewrite <- in_rev. intros Hi. eapply Hme; eauto.
+      * intros o' Ho'. apply in_app_or in Ho'. destruct Ho' as [Ho'|[<-|[]]]; auto. rewrite (Ha _ _ Ho). discriminate.
+      * intros o' Ho' sl' Hl. cbn in Hl. apply in_app_or in Ho'. destruct Ho' as [Ho'|[<-|[]]].
+        -- apply alookup_aremove_some in Hl. eapply Hme; eauto.
+        -- destruct (Nat.eq_dec sl' sl) as [->|Hne]; [rewrite alookup_aremove_eq in Hl; discriminate|].
+           rewrite alookup_aremove_ne in Hl by auto. apply Hne. eapply Hb; eauto.
+      * intros o' Ho' j t0 sl' Hne Hj Hl. apply in_app_or in Ho'. destruct Ho' as [Ho'|[<-|[]]].
+        -- eapply Hold; eauto.
+        -- destruct (HA j t0 Hj) as (Haj & _). pose proof (Ha _ _ Ho) as X. rewrite (Haj _ _ Hl) in X. congruence.
+    + (* Recv *)
+      destruct (transit p) as [|o r] eqn:Htr; [discriminate|]. inversion E; subst p'; clear E.
+      inversion HTn; subst. apply TR_upd; auto.
+      * intros o' Ho'. cbn. destruct (Nat.eqb o o') eqn:E2; [discriminate|].
+        rewrite alookup_aremove_ne by (intros ->; rewrite Nat.eqb_refl in E2; discriminate). apply Hh. cbn; auto.
+      * intros o' Ho' sl' Hl. cbn in Hl. destruct (Nat.eqb sl sl').
+        -- inversion Hl; subst. contradiction.
+        -- apply alookup_aremove_some in Hl. eapply (Hme o'); eauto. cbn; auto.
+      * intros o' Ho' j t0 sl' Hne Hj. eapply Hold; eauto. cbn; auto.
+    + (* Drop *)
+      destruct (alookup sl (slots t)) as [o|] eqn:Ho; inversion E; subst p'; clear E; apply TR_upd; auto.
+      intros o' Ho' sl' Hl. cbn in Hl. apply alookup_aremove_some in Hl. eapply Hme; eauto.
+Qed.
+
+Lemma pool_step_inv p p' : PInv p -> poolstep p p' -> PInv p'.
+Proof. intros H S. split; [eapply pool_step_inv12; eauto | eapply pool_step_TR; eauto]. Qed.
 
 Lemma pool_init_inv calls : Forall (Forall (fun c => disciplined [] c = true)) calls -> PInv (pool_init calls).
 Proof.
-  intros H. split; [reflexivity|]. intros i t Hi. cbn in Hi. rewrite nth_error_map in Hi.
+  intros H. split; [split; [reflexivity|] | split; [constructor | intros o []]].
+  intros i t Hi. cbn in Hi. rewrite nth_error_map in Hi.
   destruct (nth_error calls i) as [c|] eqn:E; [|discriminate]. inversion Hi; subst.
   repeat split; cbn; try discriminate. eapply Forall_forall in H; [exact H|]. eapply nth_error_In; eauto.
 Qed.
@@ -194,7 +331,7 @@ Proof. unfold packet_seqs. rewrite pool_users_ok. exact expected_disciplined. Qe
 Lemma pool_progress_use i t p sl k : PInv p -> nth_error (pth p) i = Some t -> now t = EUse sl :: k ->
   may_touch i sl t p = true.
 Proof.
-  intros [He HA] Hn Hnow. destruct (HA i t Hn) as (Ha & _ & Hd & _). rewrite Hnow in Hd. cbn in Hd.
+  intros [[He HA] _] Hn Hnow. destruct (HA i t Hn) as (Ha & _ & Hd & _). rewrite Hnow in Hd. cbn in Hd.
   apply andb_true_iff in Hd. destruct Hd as [Hd1 _]. destruct (lmem_alookup _ _ Hd1) as [o Ho].
   unfold may_touch. rewrite Ho, (Ha _ _ Ho), Nat.eqb_refl. reflexivity.
 Qed.
